@@ -9,9 +9,17 @@ use std::time::{Duration, Instant};
 use routinator::payload::PayloadSnapshot;
 use routinator::verif::Handler;
 
+pub fn mono_ns() -> u128 {
+    let mut ts = libc::timespec { tv_sec: 0, tv_nsec: 0 };
+    unsafe { libc::clock_gettime(libc::CLOCK_MONOTONIC, &mut ts); }
+    ts.tv_sec as u128 * 1_000_000_000 + ts.tv_nsec as u128
+}
+
 #[derive(Clone, Debug)]
 pub struct Event {
     pub t: Instant,
+    /// CLOCK_MONOTONIC in ns (comparable across processes).
+    pub mono: u128,
     pub name: String,
     pub detail: String,
     pub thread: String,
@@ -50,6 +58,7 @@ pub struct Hooks {
     kill_seen: AtomicU64,
     kill_log: Mutex<Option<std::fs::File>>,
     kill_prefix: Mutex<Vec<String>>,
+    event_log: Mutex<Option<std::fs::File>>,
 }
 
 impl Hooks {
@@ -61,12 +70,42 @@ impl Hooks {
             kill_seen: AtomicU64::new(0),
             kill_log: Mutex::new(None),
             kill_prefix: Mutex::new(vec!["fs.".into(), "archive.".into()]),
+            event_log: Mutex::new(None),
         });
         routinator::verif::set_handler(Some(h.clone()));
         h
     }
 
     pub fn uninstall() { routinator::verif::set_handler(None) }
+
+    /// Installs a handler configured from the environment (subprocess legs):
+    ///   RV_FAULTS     name=v,v,v;name2=v   fault queues ("-" = no fault)
+    ///   RV_EVENT_LOG  path: every point is appended as "mono_ns\tname\tdetail"
+    ///   RV_KILL_AT    n: SIGKILL at the n-th kill point;  RV_KILL_LOG path
+    ///   RV_SLEEP      name=ms;name=ms       sleeps at points
+    pub fn install_from_env() -> Arc<Hooks> {
+        let h = Self::install();
+        h.set_record(false);
+        if let Ok(f) = std::env::var("RV_FAULTS") {
+            for part in f.split(';').filter(|p| !p.is_empty()) {
+                if let Some((name, vals)) = part.split_once('=') {
+                    for v in vals.split(',') { h.push_fault(name, v.parse::<u32>().ok()); }
+                }
+            }
+        }
+        if let Ok(p) = std::env::var("RV_EVENT_LOG") {
+            if let Ok(f) = std::fs::OpenOptions::new().create(true).append(true).open(p) { *h.event_log.lock().unwrap() = Some(f); }
+        }
+        let kill_at = std::env::var("RV_KILL_AT").ok().and_then(|v| v.parse::<u64>().ok()).unwrap_or(0);
+        let kill_log = std::env::var("RV_KILL_LOG").ok().and_then(|p| std::fs::OpenOptions::new().create(true).append(true).open(p).ok());
+        if kill_at != 0 || kill_log.is_some() { h.set_kill(kill_at, kill_log); }
+        if let Ok(s) = std::env::var("RV_SLEEP") {
+            for part in s.split(';').filter(|p| !p.is_empty()) {
+                if let Some((name, ms)) = part.split_once('=') { if let Ok(ms) = ms.parse::<u64>() { h.set_action(name, Some(Action::Sleep(Duration::from_millis(ms)))); } }
+            }
+        }
+        h
+    }
 
     pub fn set_record(&self, on: bool) { self.inner.lock().unwrap().record = on; }
 
@@ -169,12 +208,15 @@ impl Handler for Hooks {
                 std::thread::sleep(Duration::from_secs(5));
             }
         }
+        if let Some(f) = self.event_log.lock().unwrap().as_mut() {
+            let _ = f.write_all(format!("{}\t{}\t{}\n", mono_ns(), name, detail.replace('\n', " ")).as_bytes());
+        }
         let action = {
             let mut i = self.inner.lock().unwrap();
             *i.counts.entry(name.to_string()).or_insert(0) += 1;
             if i.record {
                 let thread = format!("{:?}", std::thread::current().id());
-                i.events.push(Event { t: Instant::now(), name: name.into(), detail: detail.into(), thread });
+                i.events.push(Event { t: Instant::now(), mono: mono_ns(), name: name.into(), detail: detail.into(), thread });
             }
             i.actions.get(name).cloned()
         };
